@@ -149,7 +149,11 @@ func report(id, tier string, ps *PropSpec, results []*RunResult, loadT, wall tim
 	validated := 0
 	exit := 0
 	var violLines, knownLines []string
-	for _, r := range results {
+	old, _ := filepath.Glob(filepath.Join(verifDir, "replay", id+"-*.json"))
+	for _, f := range old {
+		os.Remove(f)
+	}
+	for ri, r := range results {
 		mergeStats(&total, &r.Stats)
 		solverQ += r.SolverQ
 		solverT += r.SolverT
@@ -253,7 +257,7 @@ func report(id, tier string, ps *PropSpec, results []*RunResult, loadT, wall tim
 					continue
 				}
 			}
-			name := fmt.Sprintf("%s-%s-%d.json", id, c.Entry, i-nWit)
+			name := fmt.Sprintf("%s-%s-r%d-%d.json", id, c.Entry, ri, i-nWit)
 			path := filepath.Join(verifDir, "replay", name)
 			rec := map[string]interface{}{"property": id, "case": c, "confirmed": confirmed, "tier": tier,
 				"replay_cmd": fmt.Sprintf("cd /verif && ./check %s --replay replay/%s", id, name)}
